@@ -77,6 +77,9 @@ def build(ast):
         if len(idx) == 1:
             idx = idx[0]
         cls = icls[idx]
+        if named_marker(item):
+            # a user-named subclass of the array class (`class Refs(xo.Ref[T][3]): pass`), as the library's own tests write
+            cls = type("Named" + cls.__name__, (cls,), {})
     elif k == "ref":
         cls = xo.Ref(build(ast[1]))
     elif k == "uref":
@@ -85,6 +88,14 @@ def build(ast):
         raise ValueError(ast)
     _cache[key] = cls
     return cls
+
+
+def named_marker(item):
+    """arrays whose item type is (a reference to) a struct/union named NS... are built as named subclasses of the array class;
+    the mark lives in the AST so that replay scripts rebuild the same classes"""
+    while item[0] == "ref":
+        item = item[1]
+    return item[0] in ("struct", "uref") and item[1].startswith("NS")
 
 
 def describe(ast):
@@ -98,7 +109,7 @@ def describe(ast):
     if k == "array":
         sh = ",".join(":" if d is None else str(d) for d in ast[2])
         o = "" if ast[3] is None else ";order=" + "".join(map(str, ast[3]))
-        return f"{describe(ast[1])}[{sh}{o}]"
+        return f"{describe(ast[1])}[{sh}{o}]" + ("(named subclass)" if named_marker(ast[1]) else "")
     if k == "ref":
         return f"Ref[{describe(ast[1])}]"
     if k == "uref":
@@ -220,6 +231,10 @@ def catalogue(tier="quick", seed=0):
     hold = struct([("r", ref(sta_struct()))], "H")
     cat.append(array(hold, (2,)))
     cat.append(struct([("h", array(hold, (None,))), ("q", I8)], "R"))
+    # user-named subclasses of array classes (items: references, dynamic structs) -- M10-C08
+    cat.append(struct([("refs", array(ref(struct([("x", I32), ("y", F64)], "NS")), (3,))), ("k", I64)], "R"))
+    cat.append(array(ref(struct([("v", F64), ("w", array(I8, (None,)))], "NS")), (None,)))
+    cat.append(struct([("a", array(struct([("v", F64), ("w", array(I8, (None,)))], "NS"), (None,))), ("s", STR)]))
     # declared (non-zero) defaults of scalar fields next to dynamic fields
     dd = struct([("x", F64), ("n", I64), ("s", STR), ("a", array(F64, (None,))), ("k", I8)], "D")
     DEFAULTS[(dd[1], "x")] = 1.5
